@@ -15,7 +15,13 @@ type Stage struct {
 	Kind string `json:"k"` // out | fn | err | tg
 	Tag  string `json:"t,omitempty"`
 	Exit int    `json:"x,omitempty"`
+	// Sub: tag written to stderr by a sub-shell in the command's argument (`out a1${err s1}`):
+	// evaluated only if the command really runs
+	Sub string `json:"u,omitempty"`
 }
+
+// chainSubEffects lets genChain give commands an argument sub-shell with a visible side effect (C04 only)
+var chainSubEffects bool
 
 // Unit is a pipeline (1..n stages) with the operator joining it to its predecessor
 type Unit struct {
@@ -37,8 +43,14 @@ var fnExits = []int{0, 1, 2, 3, 7}
 func (s Stage) src() string {
 	switch s.Kind {
 	case "out":
+		if s.Sub != "" {
+			return "out " + s.Tag + "${err " + s.Sub + "}"
+		}
 		return "out " + s.Tag
 	case "fn":
+		if s.Sub != "" {
+			return fmt.Sprintf("vf%d %s${err %s}", s.Exit, s.Tag, s.Sub)
+		}
 		return fmt.Sprintf("vf%d %s", s.Exit, s.Tag)
 	case "err":
 		return "err " + s.Tag
@@ -52,8 +64,14 @@ func (s Stage) src() string {
 func (s Stage) effect(stdin string) (string, string, int) {
 	switch s.Kind {
 	case "out":
+		if s.Sub != "" {
+			return s.Tag + "\n", s.Sub + "\n", 0
+		}
 		return s.Tag + "\n", "", 0
 	case "fn":
+		if s.Sub != "" {
+			return s.Tag + "\n", s.Sub + "\n", s.Exit
+		}
 		return s.Tag + "\n", "", s.Exit
 	case "err":
 		return "", s.Tag + "\n", 1
@@ -97,11 +115,21 @@ func genChain(r *rand.Rand, maxCmds int, wantLogic bool) []Unit {
 		tag++
 		t := fmt.Sprintf("%c%d", 'a'+rune(r.Intn(26)), tag)
 		for {
+			sub := ""
+			if chainSubEffects && !*stderrUsed && r.Intn(4) == 0 {
+				sub = "s" + t
+			}
 			switch k := r.Intn(10); {
 			case k < 3:
-				return Stage{Kind: "out", Tag: t}
+				if sub != "" {
+					*stderrUsed = true
+				}
+				return Stage{Kind: "out", Tag: t, Sub: sub}
 			case k < 7:
-				return Stage{Kind: "fn", Tag: t, Exit: fnExits[r.Intn(len(fnExits))]}
+				if sub != "" {
+					*stderrUsed = true
+				}
+				return Stage{Kind: "fn", Tag: t, Exit: fnExits[r.Intn(len(fnExits))], Sub: sub}
 			case k < 8:
 				if *stderrUsed {
 					continue
